@@ -12,7 +12,8 @@ pub fn address_of_point(pt: &(U256, U256)) -> [u8; 20] {
     keccak256(&xy)[12..].try_into().unwrap()
 }
 pub fn address_of_secret(curve: &Curve, d: &U256) -> [u8; 20] { address_of_point(&curve.mul_g(d).unwrap()) }
-pub fn eip55(addr: &[u8; 20]) -> String {
+pub fn eip55(addr: &[u8; 20]) -> String { let o = eip55_raw(addr); crate::trace::rec("eip55", 300, || (crate::trace::h(addr), crate::trace::q(&o))); o }
+fn eip55_raw(addr: &[u8; 20]) -> String {
     let lower = hex(addr); let h = keccak256(lower.as_bytes());
     let mut out = String::from("0x");
     for (i, ch) in lower.chars().enumerate() {
@@ -21,7 +22,8 @@ pub fn eip55(addr: &[u8; 20]) -> String {
     }
     out
 }
-pub fn eip191_digest(msg: &[u8]) -> [u8; 32] {
+pub fn eip191_digest(msg: &[u8]) -> [u8; 32] { let o = eip191_raw(msg); if msg.len() <= 2000 { crate::trace::rec("eip191", 400, || (crate::trace::h(msg), crate::trace::h(&o))); } o }
+fn eip191_raw(msg: &[u8]) -> [u8; 32] {
     let mut m = b"\x19Ethereum Signed Message:\n".to_vec();
     m.extend_from_slice(msg.len().to_string().as_bytes()); m.extend_from_slice(msg);
     keccak256(&m)
